@@ -834,7 +834,11 @@ fn case_fn(quick: bool) -> impl Fn(u64, &mut Rng, &mut Report) + Sync {
                             }
                         }
                         Ok(got) => {
-                            if total > limit as u64 {
+                            // the returned result itself is what must respect the limit: with ties
+                            // at the `size` cut of a terms parent another partition may
+                            // legitimately return other (and fewer) buckets than the reference.
+                            // A result cut short by the limit fails the comparison below.
+                            if count_buckets(&rc.aggs, &got) > limit as u64 {
                                 viol(rep, "limits/bucket-limit:no-error-above-limit", w(got));
                             } else if direct_ok {
                                 let mut c = Cmp::new();
